@@ -104,6 +104,59 @@ def run(ctx):
                     ctx.violation('generic address encoder / converter gives another address than the standard encoding of the same destination',
                                   {'op': 'generic ' + name, 'network': net, 'hash': (h32 if '32' in name else h20).hex(), 'observed': got, 'expected': want})
 
+    # ---- Address OBJECTS made from a public key (not parsed from a string), of every address kind: the output pays the script of the
+    # address the object shows; objects and keys of ANOTHER network are refused by a transaction; options do not empty the script
+    from bitcoinlib.keys import Address as _Addr
+    for net in (nets if T else rng.sample(nets, 4) + ['bitcoin']):
+        kk = Key(rng.randrange(1, 2 ** 250), network=net)
+        for st_, enc_ in (('p2pkh', 'base58'), ('p2sh_p2wpkh', 'base58'), ('p2wpkh', 'bech32')):
+            ao = att(lambda: _Addr(kk.public_byte, script_type=st_, encoding=enc_, network=net))
+            if ao is None:
+                ctx.count('address-object-not-available:%s' % st_)
+                continue
+            ctx.count('address-object-from-key:' + st_)
+            o1 = att(lambda: Output(1000, address=ao, network=net))
+            cases.append(('dest_script %s %s' % (net, ao.address), hexp(o1.lock_script) if o1 is not None else 'none', True))
+            t1 = att(lambda: Transaction(network=net))
+            if t1 is not None:
+                r1 = att(lambda: t1.add_output(1000, ao))
+                cases.append(('dest_script %s %s' % (net, ao.address), hexp(t1.outputs[-1].lock_script) if r1 is not None and t1.outputs else 'none', True))
+            # the same address string with strict=False: the script may not silently be left out
+            for how_, mk in (('Output', lambda: Output(1000, address=ao.address, network=net, strict=False)),):
+                o2 = att(mk)
+                if o2 is not None and o2.lock_script == b'':
+                    ctx.violation('an output built from an address has an empty locking script', {'op': 'dest_script %s %s' % (net, ao.address), 'how': how_ + '(strict=False)'})
+            # another network's transaction must refuse the object (and the key it was made from)
+            onet = rng.choice([n_ for n_ in nets if NETWORK_DEFINITIONS[n_]['prefix_bech32'] != NETWORK_DEFINITIONS[net]['prefix_bech32']
+                               and NETWORK_DEFINITIONS[n_]['prefix_address'] != NETWORK_DEFINITIONS[net]['prefix_address']])
+            t2 = att(lambda: Transaction(network=onet))
+            if t2 is not None:
+                ctx.evals += 1
+                ctx.count('foreign-network-object')
+                r2 = att(lambda: t2.add_output(1000, ao))
+                if r2 is not None and t2.outputs:
+                    ctx.violation('a transaction accepted an Address object of another network', {'op': 'foreign-object %s in %s' % (ao.address, onet), 'script': t2.outputs[-1].lock_script.hex()})
+        hk_ = att(lambda: HDKey.from_seed(bytes(rng.randrange(256) for _ in range(32)), network=net))
+        if hk_ is not None:
+            onet = rng.choice([n_ for n_ in nets if NETWORK_DEFINITIONS[n_]['prefix_bech32'] != NETWORK_DEFINITIONS[net]['prefix_bech32']])
+            t3 = att(lambda: Transaction(network=onet))
+            if t3 is not None:
+                ctx.evals += 1
+                r3 = att(lambda: t3.add_output(1000, hk_))
+                if r3 is not None and t3.outputs:
+                    ctx.violation('a transaction accepted an HD key of another network as destination', {'op': 'foreign-hdkey %s in %s' % (net, onet), 'script': t3.outputs[-1].lock_script.hex()})
+        # Address.parse told the wrong network
+        for a_ in (segwit_enc_ref(NETWORK_DEFINITIONS[net]['prefix_bech32'], 0, payload(20)), b58addr(NETWORK_DEFINITIONS[net]['prefix_address'], payload(20))):
+            onet = rng.choice([n_ for n_ in nets if NETWORK_DEFINITIONS[n_]['prefix_bech32'] != NETWORK_DEFINITIONS[net]['prefix_bech32']
+                               and NETWORK_DEFINITIONS[n_]['prefix_address'] != NETWORK_DEFINITIONS[net]['prefix_address']])
+            ctx.evals += 1
+            ctx.count('address-parse-with-wrong-network')
+            pr = att(lambda: _Addr.parse(a_, network=onet))
+            if pr is not None:
+                ctx.violation('Address.parse accepted an address for a network it does not belong to', {'op': 'parse %s as %s' % (a_, onet), 'observed_network': pr.network.name})
+    ctx.compare(cases, 'address-objects')
+    cases = []
+
     # ---- script -> address / type -----------------------------------------------------------------------------
     cases = []
     from harness.core import run_driver as rd
